@@ -295,12 +295,34 @@ func verdictCheck2(t fataler, ev []event, rate uint64, burst, bucket uint32, ove
 		return failSig(t, overSig, "%s; %s", w.Detail, ctx()), cls
 	}
 	r := rate / 8
-	for _, run := range satRuns(ev, rate, bucket) {
+	type lbRun struct {
+		r       [2]int
+		aligned bool
+	}
+	var runs []lbRun
+	for _, x := range satRuns(ev, rate, bucket) {
+		runs = append(runs, lbRun{x, false})
+	}
+	for _, x := range alignedRuns(ev, rate, bucket) {
+		runs = append(runs, lbRun{x, true})
+	}
+	for _, lr := range runs {
+		run := lr.r
 		sub := ev[run[0]:run[1]]
-		cls = append(cls, "lb:run")
+		if lr.aligned {
+			cls = append(cls, "lb:aligned-train")
+			if sub[0].Size == bucket {
+				cls = append(cls, "lb:aligned-train:size==burst")
+			}
+		} else {
+			cls = append(cls, "lb:run")
+		}
 		// is the demand of clause 2 positive somewhere in this run?  r*W > burst + 65535
 		if !mulLE(r, sub[len(sub)-1].T-sub[0].T, uint64(burst)+maxPkt, 1_000_000_000) {
 			cls = append(cls, "lb:live")
+			if lr.aligned {
+				cls = append(cls, "lb:aligned-live")
+			}
 		}
 		lw := lowerBound(sub, rate, burst)
 		if len(sub) <= 48 {
